@@ -238,7 +238,7 @@ def run(repo: Repo, L: Ledger, tier: str):
                             if isinstance(a, str) and ".rows[" in a:
                                 rowsym = a.rsplit(".", 1)[0]
                 if rowsym is None:
-                    bad("O6", "row", "cannot relate the written row to a row of the scaffold", node)
+                    raise AnalysisError(f"{fmt.short}: cannot relate the written row to a row of the scaffold (columns come through a helper or an intermediate structure): form not understood")
                     continue
                 if not rowsym.endswith(f".rows[{j}]"):
                     bad("O5", "unfiltered", f"line {j + 1} of the object describes {rowsym}: rows are skipped or reordered", node)
@@ -340,6 +340,12 @@ def run(repo: Repo, L: Ledger, tier: str):
             ok5 = True
     if not row_loops:
         raise AnalysisError(f"{fmt.short}: no loop over a scaffold's rows in the formatter itself (rows are produced by a helper): form not understood")
+    if len(row_loops) == 1 and not ok5:
+        it_ = row_loops[0].iter
+        inner_ = it_.args[0] if isinstance(it_, ast.Call) and dotted(it_.func) in ("enumerate", "zip", "list", "iter") and it_.args else it_
+        if isinstance(inner_, ast.Call) and not (isinstance(inner_.func, ast.Name) and inner_.func.id in ("filter", "reversed", "sorted")):
+            # rows come through a helper (scffld.placed_rows(), a generator ...) the column rules cannot see through
+            raise AnalysisError(f"{fmt.short}: the row loop iterates over '{norm(it_)[:50]}', a helper that produces the rows: form not understood")
     L.check(bool(row_loops) and ok5, "O5", f"{fmt.short}:rows", "rows iterated unfiltered, in order", f"row loop iterates over '{norm(row_loops[0].iter) if row_loops else None}' (must be the scaffold's rows, unfiltered)", fmt.loc())
 
     # ---- O9 single writer
